@@ -182,7 +182,9 @@ def run(chk, F):
     methods = {}
     for m in ("alloc", "alloc_zeroed", "realloc", "dealloc"):
         try:
-            methods[m] = F.find(CRATE, "<alloc::Alloc as core::alloc::global::GlobalAlloc>::" + m, exact=True)
+            # a shared private body (`alloc_with(layout, |p, l| p.alloc(l))`) is put back in place, with its closure; `charge` is
+            # the helper the rule knows
+            methods[m] = F.find(CRATE, "<alloc::Alloc as core::alloc::global::GlobalAlloc>::" + m, exact=True, inline=True, keep=("::charge", "Option::<T>", "Iterator"))
         except AnchorLost as e:
             chk.anchor_lost("alloc-methods", m, str(e))
     for m, fn in methods.items():
